@@ -27,7 +27,7 @@ def run_hist(b, cases, seq, workdir):
         lines.append("T %d %s" % (i, t))
     os.makedirs(workdir, exist_ok=True)
     try:
-        rc, out, err = common.run_lines([b.tshdump, "hist", workdir], lines, timeout=120)
+        rc, out, err = common.run_lines([b.tshdump, "hist", workdir], lines, timeout=900)
     finally:
         shutil.rmtree(workdir, ignore_errors=True)
     return [l[2:] for l in out if l.startswith("R ")]
